@@ -314,8 +314,31 @@ func runC02(res *hx.Result, rng *hx.Rng, tier string, outdir string) {
 
 	cs := hx.NewCases(outdir, "C02", "From QV Require Import Value ParseOpt C02Run.", "mismatches cfg cases", res, "cases", "c02case")
 	cs.Extra = append(cs.Extra, cfg)
-	for i := 0; i < n; i++ {
-		d := genDv(rng, 0, maxDepth)
+	// the decoder's limits, exactly: the largest values it must still accept
+	boundary := []*dv{}
+	for _, k := range []int{4095, 4096} {
+		l := &dv{kind: "L["}
+		for i := 0; i < k; i++ {
+			l.l = append(l.l, &dv{kind: "v"})
+		}
+		boundary = append(boundary, l)
+	}
+	for _, b := range []*dv{{kind: "r", b: make([]byte, 10*1024*1024)}, {kind: "s", b: bytes.Repeat([]byte("x"), 10*1024*1024)}} {
+		var buf bytes.Buffer
+		b.goValue().Write(&buf)
+		if o := newValue(buf.Bytes()); o.class != ocOK || o.left != 0 || o.v.kind != b.kind || len(o.v.b) != len(b.b) {
+			res.Fail("limit", fmt.Sprintf("a %s value of exactly %d bytes (the decoder's limit) does not round-trip: class %d", b.kind, len(b.b), o.class))
+		}
+		res.Count(fmt.Sprintf("limit-%s", b.kind), true)
+		res.Dist("kind:limit-sized " + b.kind)
+	}
+	for i := 0; i < n+len(boundary); i++ {
+		var d *dv
+		if i < len(boundary) {
+			d = boundary[i]
+		} else {
+			d = genDv(rng, 0, maxDepth)
+		}
 		doc := d.doc()
 		var buf bytes.Buffer
 		if err := d.goValue().Write(&buf); err != nil {
